@@ -9,7 +9,7 @@
    [selected] the WHERE test, [update_row] / [delete_row] the effect of the statement on a row.
    [wt sc e = Some t]: e is in the typed fragment (any depth); [guard e r]: no node of e falls, for the
    row r, into one of the regions where Python and SQL differ (% with a negative operand or zero divisor;
-   IN / NOT IN with a NULL in the list and no match, or an empty list and a NULL operand; startswith /
+   IN / NOT IN with an empty list and a NULL operand; startswith /
    endswith with LIKE wildcards or upper-case ASCII letters).  [rel v s]: the Python value v is the SQL
    value s (None/NULL, True/1, False/0, equal numbers, equal strings). *)
 From Coq Require Import List ZArith NArith Bool.
@@ -43,10 +43,11 @@ Proof. exact unevaluatable_raises. Qed.
 Print Assumptions c43_unevaluatable_raises.
 
 (* UPDATE: a fully loaded object that agrees with its row agrees with the updated row afterwards
-   (SET clauses: distinct targets, typed like their column, guarded, none reads another one's target) *)
+   (SET clauses: distinct targets, typed like their column, guarded; they may read each other's targets -
+   since c4d3d0a all right-hand sides are evaluated before any assignment) *)
 Theorem c43_update_in_sync_guarded : forall sc crit sets r,
   row_ok sc r -> wt sc crit = Some TyBool -> guard crit r = true ->
-  targets_distinct sets = true -> sets_independent sets = true -> forallb (set_ok sc r) sets = true ->
+  targets_distinct sets = true -> forallb (set_ok sc r) sets = true ->
   exists o', update_obj sc crit sets (obj_of r) = OOk o' /\
              forall c, o' c = obj_of (update_row crit sets r) c.
 Proof. exact update_in_sync. Qed.
@@ -79,7 +80,7 @@ Print Assumptions c43_fetch_matches_selected.
    evaluates it); only the SET expressions are evaluated in Python *)
 Theorem c43_fetch_update_in_sync : forall sc m ur crit sets db r,
   m.(sub_table) = false -> incl m.(mpk) m.(tpk) -> keys_distinct m db -> In r db ->
-  row_ok sc r -> targets_distinct sets = true -> sets_independent sets = true -> forallb (set_ok sc r) sets = true ->
+  row_ok sc r -> targets_distinct sets = true -> forallb (set_ok sc r) sets = true ->
   exists o', fetch_update_obj sc m (fetch_keys m ur crit db) sets r = OOk o' /\
              forall c, o' c = obj_of (update_row crit sets r) c.
 Proof. exact fetch_update_in_sync. Qed.
@@ -106,10 +107,6 @@ Theorem c43_mod_negative_refuted : exists sc e r,
   wt sc e = Some TyBool /\ guard e r = false /\ matched sc e (obj_of r) = Matched false /\ selected e r = false.
 Proof. eexists _, _, _. exact mod_negative_refuted. Qed.
 Print Assumptions c43_mod_negative_refuted.
-Theorem c43_not_in_null_refuted : exists sc e r,
-  wt sc e = Some TyBool /\ guard e r = false /\ matched sc e (obj_of r) = Matched false /\ selected e r = false.
-Proof. eexists _, _, _. exact not_in_null_refuted. Qed.
-Print Assumptions c43_not_in_null_refuted.
 Theorem c43_empty_in_null_operand_refuted : exists sc e r,
   wt sc e = Some TyBool /\ guard e r = false /\ matched sc e (obj_of r) = NotMatched /\ selected e r = true.
 Proof. eexists _, _, _. exact empty_in_null_operand_refuted. Qed.
@@ -122,22 +119,31 @@ Theorem c43_startswith_case_refuted : exists sc e r,
   wt sc e = Some TyBool /\ guard e r = false /\ matched sc e (obj_of r) = NotMatched /\ selected e r = true.
 Proof. eexists _, _, _. exact startswith_case_refuted. Qed.
 Print Assumptions c43_startswith_case_refuted.
-(* outside the hypotheses "fully loaded object", "independent SET clauses", "boolean criterion" *)
+(* outside the hypotheses "fully loaded object", "boolean criterion" *)
 Theorem c43_partially_expired_refuted : exists sc e r o sets c,
   wt sc e = Some TyBool /\ guard e r = true /\ matched sc e o = Matched true /\ selected e r = false /\
   (exists o', update_obj sc e sets o = OOk o' /\ o' c = Loaded (SInt 9)) /\ update_row e sets r c = SInt 0.
 Proof. eexists _, _, _, _, _, _. exact partially_expired_refuted. Qed.
 Print Assumptions c43_partially_expired_refuted.
-Theorem c43_set_order_refuted : exists sc e sets r,
-  sets_independent sets = false /\
-  (exists o', update_obj sc e sets (obj_of r) = OOk o' /\ o' 0%nat = Loaded (SInt 2) /\ o' 1%nat = Loaded (SInt 2)) /\
-  update_row e sets r 0%nat = SInt 2 /\ update_row e sets r 1%nat = SInt 1.
-Proof. eexists _, _, _, _. exact set_order_refuted. Qed.
-Print Assumptions c43_set_order_refuted.
 Theorem c43_non_boolean_criterion_refuted : exists sc e r,
   wt sc e = Some TyInt /\ matched sc e (obj_of r) = NotMatched /\ selected e r = true.
 Proof. eexists _, _, _. exact non_boolean_criterion_refuted. Qed.
 Print Assumptions c43_non_boolean_criterion_refuted.
+
+(* repaired by e2dd2ce and c4d3d0a: the former counterexamples are now positive instances *)
+Example c43_not_in_null_fixed :
+  let e := EIn true (ECol 0) [SInt 1; SNull] in
+  let r := mkrow (SInt 0) (SInt 0) SNull SNull in
+  wt scx e = Some TyBool /\ guard e r = true /\
+  matched scx e (obj_of r) = NotMatched /\ selected e r = false /\ ev scx e (obj_of r) = POk VNone.
+Proof. exact not_in_null_now_faithful. Qed.
+Example c43_set_order_fixed :
+  let e := ETrue in
+  let sets := [(0%nat, ECol 1); (1%nat, ECol 0)] in
+  let r := mkrow (SInt 1) (SInt 2) SNull SNull in
+  (exists o', update_obj scx e sets (obj_of r) = OOk o' /\ o' 0%nat = Loaded (SInt 2) /\ o' 1%nat = Loaded (SInt 1)) /\
+  update_row e sets r 0%nat = SInt 2 /\ update_row e sets r 1%nat = SInt 1.
+Proof. exact set_order_now_faithful. Qed.
 
 (* the AND defect fixed by 830775e: its witness is now inside the guarded region and faithful *)
 Example c43_and_false_null_fixed :
@@ -150,11 +156,12 @@ Proof. exact and_false_null_now_faithful. Qed.
    every hypothesis of the guarded theorems *)
 Example c43_ex_hyps :
   let crit := EOr [EAnd [EBin OGt (EBin OAdd (ECol 0) (lit_i 1)) (ECol 1);
-                         ENot (EGroup (EOr [EIn false (ECol 1) [SInt 1; SInt 2]; EBin OIs (ECol 3) ENull]))];
+                         ENot (EGroup (EOr [EIn false (ECol 1) [SInt 1; SNull]; EBin OIs (ECol 3) ENull]))];
                    EBin OStartsWith (ECol 2) (lit_s [97; 98]%N);
                    EBin OEq (EBin OMod (ECol 1) (lit_i 3)) (lit_i 2)] in
   let r := mkrow (SInt (-7)) (SInt 5) (str [97; 98; 99]%N) SNull in
-  let sets := [(0%nat, EBin OMul (ECol 1) (lit_i 2)); (3%nat, EBin OConcat (ECol 2) (lit_s [122]%N))] in
+  let sets := [(0%nat, EBin OMul (ECol 1) (lit_i 2)); (1%nat, EBin OAdd (ECol 0) (lit_i 1));
+               (3%nat, EBin OConcat (ECol 2) (lit_s [122]%N))] in
   wt scx crit = Some TyBool /\ guard crit r = true /\ selected crit r = true /\
-  targets_distinct sets = true /\ sets_independent sets = true /\ forallb (set_ok scx r) sets = true.
+  targets_distinct sets = true /\ forallb (set_ok scx r) sets = true.
 Proof. vm_compute. repeat split. Qed.
